@@ -41,7 +41,7 @@ int g_result_fd = -1;
 
 namespace
 {
-constexpr int MAXT = 1024;
+constexpr int MAXT = 16384;
 enum St : int { FREE = 0, RUNNABLE, BLOCKED, DONE };
 struct Thr
 {
@@ -65,6 +65,19 @@ struct Thr
 };
 Thr th[MAXT];
 int nth = 0;
+int g_live[MAXT]; // indices of threads that are RUNNABLE or BLOCKED, in creation order
+int g_nlive = 0;
+void live_add(int i) { g_live[g_nlive++] = i; }
+void live_del(int i)
+{
+  for (int k = 0; k < g_nlive; k++)
+    if (g_live[k] == i)
+    {
+      for (int j = k; j + 1 < g_nlive; j++) g_live[j] = g_live[j + 1];
+      g_nlive--;
+      return;
+    }
+}
 sim::Config cfg;
 uint64_t g_steps = 0, g_switches = 0, g_preempts = 0, g_stamp = 0, g_stalled = 0, g_stalls = 0, g_spurious = 0, g_timejumps = 0;
 uint64_t g_hash = 1469598103934665603ull, g_ilv = 1469598103934665603ull, g_state = 1469598103934665603ull;
@@ -152,7 +165,7 @@ uint64_t next_event_time()
 {
   simint::TsanIgn _tsan_ign;
   uint64_t best = UINT64_MAX;
-  for (int i = 0; i < nth; i++)
+  for (int li = 0, i; li < g_nlive && ((i = g_live[li]), true); li++)
     if (th[i].st == BLOCKED && th[i].until < best) best = th[i].until;
   for (int k = 0; k < g_nsrc; k++)
   {
@@ -164,7 +177,7 @@ uint64_t next_event_time()
 void expire_waiters()
 {
   simint::TsanIgn _tsan_ign;
-  for (int i = 0; i < nth; i++)
+  for (int li = 0, i; li < g_nlive && ((i = g_live[li]), true); li++)
     if (th[i].st == BLOCKED && th[i].until <= g_now)
     {
       th[i].st = RUNNABLE;
@@ -196,7 +209,7 @@ void schedule(bool yielding = false)
   {
     int cand[MAXT];
     int nc = 0;
-    for (int i = 0; i < nth; i++)
+    for (int li = 0, i; li < g_nlive && ((i = g_live[li]), true); li++)
       if (th[i].st == RUNNABLE) cand[nc++] = i;
     if (nc == 0)
     {
@@ -301,6 +314,7 @@ void thread_finish(int id)
 {
   simint::TsanIgn _tsan_ign;
   th[id].st = DONE;
+  live_del(id);
   for (int i = 0; i < nth; i++)
     if (th[i].st == BLOCKED && th[i].bk == B_JOIN && th[i].on == &th[id]) th[i].st = RUNNABLE;
   g_steps++;
@@ -476,7 +490,7 @@ bool block(BlockKind k, const void* onp, uint64_t until, uint32_t tag, bool wall
 void wake_all(BlockKind k, const void* onp)
 {
   simint::TsanIgn _tsan_ign;
-  for (int i = 0; i < nth; i++)
+  for (int li = 0, i; li < g_nlive && ((i = g_live[li]), true); li++)
     if (th[i].st == BLOCKED && th[i].bk == k && th[i].on == onp)
     {
       th[i].st = RUNNABLE;
@@ -486,7 +500,7 @@ void wake_all(BlockKind k, const void* onp)
 void wake_fd_waiters()
 {
   simint::TsanIgn _tsan_ign;
-  for (int i = 0; i < nth; i++)
+  for (int li = 0, i; li < g_nlive && ((i = g_live[li]), true); li++)
     if (th[i].st == BLOCKED && th[i].bk == B_FD)
     {
       th[i].st = RUNNABLE;
@@ -577,6 +591,8 @@ void begin(const Config& c)
   if (&g_atomic_points) g_atomic_points = c.atomic_points;
   if (!g_key_ok) { pthread_key_create(&g_key, key_dtor); g_key_ok = true; }
   nth = 1;
+  g_nlive = 0;
+  live_add(0);
   th[0].st = RUNNABLE;
   th[0].real = pthread_self();
   snprintf(th[0].name, sizeof th[0].name, "main");
@@ -638,7 +654,7 @@ int live_threads()
 {
   simint::TsanIgn _tsan_ign;
   int n = 0;
-  for (int i = 0; i < nth; i++) if (th[i].st == RUNNABLE || th[i].st == BLOCKED) n++;
+  for (int li = 0, i; li < g_nlive && ((i = g_live[li]), true); li++) if (th[i].st == RUNNABLE || th[i].st == BLOCKED) n++;
   return n;
 }
 void point(uint32_t tag) { simint::point(tag); }
@@ -740,6 +756,7 @@ int pthread_create(pthread_t* t, const pthread_attr_t* a, void* (*fn)(void*), vo
   n.arg = arg;
   n.go.store(0);
   n.st = RUNNABLE;
+  live_add(id);
   n.prio = (1u << 20) + raw_draw(sim::S, 1u << 20);
   int ds = 0;
   if (a) pthread_attr_getdetachstate(a, &ds);
@@ -751,6 +768,7 @@ int pthread_create(pthread_t* t, const pthread_attr_t* a, void* (*fn)(void*), vo
   if (rc != 0)
   {
     n.st = FREE;
+    live_del(id);
     nth--;
     return rc;
   }
